@@ -9,6 +9,10 @@ CONSTANTS
   Prefixes = {"", "a"}
   IterOps = {}
   CopyMaps = {"m1", "m2"}
+  PClass = {}
+  PNames = {}
+  SpawnIn = {"worldspawn", "WorldSpawn", "c", "d"}
+  SpawnQuiet = FALSE
 INVARIANT Agree
 INVARIANT SpawnRule
 INVARIANT SearchAgree
